@@ -21,7 +21,8 @@ def gen(rng):
     nf = rng.randint(2, 4)
     facts = [("f%d" % i, ()) for i in range(nf)]
     for a in facts:
-        prog.append(("fact", Fraction(rng.choice([1, 2, 3, 4, 6, 7, 8, 9]), 10), a))
+        # (probabilities 1.0 and 0.0 included: valid annotations with an infinite / zero MaxSAT weight)
+        prog.append(("fact", Fraction(rng.choice([1, 2, 3, 4, 6, 7, 8, 9, 10, 10, 0]), 10), a))
     heads = []
     if rng.random() < 0.5:
         n = rng.randint(2, 3)
